@@ -278,3 +278,17 @@ class LinBoth(Lin):
         r = self._raw(X)
         p = 1.0 / (1.0 + np.exp(-r))
         return np.column_stack([1.0 - p, p])
+
+
+class MemoWeak(Memo):
+    """Perfect on its training rows, only weakly informative on unseen rows: trains fine, but on held-out
+    data it accepts fewer targets than the best single feature (the 'learned scores are worse' branch)."""
+
+    def decision_function(self, X):
+        X = np.asarray(X, dtype=np.float64)
+        rid = X[:, -1].astype(np.int64)
+        base = 0.05 * np.tanh(0.45 * (self.w * X[:, 0] + 1.6 * X[:, 1]))
+        mem = self.__dict__.get("mem_", {})
+        out = np.array([(10.0 if mem[r] > 0.5 else -10.0) + b if r in mem else b for r, b in zip(rid.tolist(), base)])
+        _emit(self.log, (self._token(), "predict", rid.copy(), out.copy()))
+        return out
